@@ -237,6 +237,7 @@ class BdRetransmit(Contract):
     props = ("C12",)
     cases = {"3seg-ack%d" % a: (3, a) for a in (0, 1, 2)}
     cases.update({"5seg-ack%d" % a: (5, a) for a in (0, 2, 4)})
+    cases_thorough = {"%dseg-ack%d" % (n, a): (n, a) for n in (1, 2, 4, 5, 7, 12) for a in range(n)}
     xcheck = False
 
     def setup(self, w, case):
